@@ -529,6 +529,15 @@ class DAGRunConcurrentManager(DAGRunManagerLike):
                 # as processed, so a node which is also needed by another consumer (the next OneOf candidate or
                 # the main DAG) would never get a result. Everything that is still running is stopped by run().
 
+                # The destination cannot be calculated any more. Inside a OneOf subgraph an error is kept as a node's
+                # result, so the destination gets the error of its dependency. Otherwise whoever waits for the destination
+                # from outside of this subgraph (the consumer of a switch whose case it is, the consumers of
+                # a recurrent subgraph) would never find out about the error and the OneOf would never try
+                # its next candidate.
+                if not self._node_storage.exists_node_result(dag.dest):
+                    self._node_storage.set_node_result(dag.dest, self.__get_subgraph_error(dag))
+                    await self.__unlock_descendants(dag.dest)
+
                 # We must unlock descendants because the next OneOf subgraph should start the process.
                 # Otherwise, the entire subgraph will be locked.
                 await self.__unlock_descendants(node_id)
@@ -566,6 +575,17 @@ class DAGRunConcurrentManager(DAGRunManagerLike):
             self._node_storage.exists_node_error(node_id)
             for node_id in dag.nodes
         ])
+
+    def __get_subgraph_error(self, dag: DiGraph) -> BaseException:
+        """
+        Get the first error that is kept as a node's result in the subgraph
+        """
+        # The nodes of a subgraph are kept in a set, the order of the whole graph is stable
+        return next(
+            self._node_storage.get_node_result(node_id)
+            for node_id in self.dag.graph.nodes
+            if node_id in dag and self._node_storage.exists_node_error(node_id)
+        )
 
     async def _run_oneof(self, dag: DiGraph, node_id: NodeId) -> t.Any:
         """
